@@ -17,61 +17,12 @@ import (
 	"time"
 
 	"github.com/syndtr/goleveldb/leveldb"
-	"github.com/syndtr/goleveldb/leveldb/opt"
 	"github.com/syndtr/goleveldb/leveldb/storage"
-	"github.com/syndtr/goleveldb/leveldb/table"
 	"github.com/syndtr/goleveldb/leveldb/util"
 
 	"verif/harness/internal/vt"
 	"verif/harness/internal/wl"
 )
-
-type entry struct {
-	k    int // key rank (-1: not in the universe)
-	seq  uint64
-	kind int // 0 delete, 1 value
-}
-
-// scanTable lists the readable entries of a table file with checksums on, skipping damaged blocks.
-func scanTable(stor *vt.RecStor, fd storage.FileDesc, o *opt.Options, u *vt.Universe) (ents []entry, corrupted int, err error) {
-	defer func() {
-		if x := recover(); x != nil {
-			err = fmt.Errorf("panic scanning table %d: %v", fd.Num, x)
-		}
-	}()
-	data, ok := stor.Data(fd)
-	if !ok {
-		return nil, 0, fmt.Errorf("table %d missing", fd.Num)
-	}
-	st := vt.NewRecStor()
-	st.SetData(fd, data)
-	r, err := st.Open(fd)
-	if err != nil {
-		return nil, 0, err
-	}
-	oo := *o
-	oo.Comparer = leveldb.VerifIComparer(o.Comparer)
-	oo.Strict = opt.DefaultStrict &^ opt.StrictReader
-	oo.Filter = nil
-	tr, err := table.NewReader(r, int64(len(data)), fd, nil, nil, &oo)
-	if err != nil {
-		return nil, 1, nil // index or footer unreadable: nothing survives
-	}
-	defer tr.Release()
-	it := tr.NewIterator(nil, nil)
-	defer it.Release()
-	if es, ok := it.(interface{ SetErrorCallback(func(error)) }); ok {
-		es.SetErrorCallback(func(error) { corrupted++ })
-	}
-	for it.Next() {
-		uk, seq, kind, kerr := leveldb.VerifParseInternalKey(it.Key())
-		if kerr != nil {
-			continue
-		}
-		ents = append(ents, entry{k: u.Rank(uk), seq: seq, kind: kind})
-	}
-	return ents, corrupted, nil
-}
 
 func main() {
 	seed := flag.Int64("seed", 1, "seed")
@@ -193,19 +144,19 @@ func main() {
 			}
 		}
 		// entries before damage
-		newest := map[int]entry{}
-		scanAll := func() (map[int]entry, int, error) {
-			res := map[int]entry{}
+		newest := map[int]wl.Entry{}
+		scanAll := func() (map[int]wl.Entry, int, error) {
+			res := map[int]wl.Entry{}
 			corr := 0
 			for _, fd := range tables {
-				ents, c, err := scanTable(img, fd, w.O, w.U)
+				ents, c, err := wl.ScanTable(img, fd, w.O, w.U)
 				if err != nil {
 					return nil, 0, err
 				}
 				corr += c
 				for _, e := range ents {
-					if old, ok := res[e.k]; !ok || e.seq > old.seq {
-						res[e.k] = e
+					if old, ok := res[e.K]; !ok || e.Seq > old.Seq {
+						res[e.K] = e
 					}
 				}
 			}
@@ -242,7 +193,7 @@ func main() {
 		for k := 0; k < w.U.N(); k++ {
 			n, had := newest[k]
 			s, has := survive[k]
-			if !had || (has && s.seq == n.seq) {
+			if !had || (has && s.Seq == n.Seq) {
 				newestOK = append(newestOK, k)
 			}
 		}
